@@ -526,6 +526,11 @@ struct Splitter
     bool barePlaceholders = false;
     bool useIds = false;
     bool leaveGap = false;
+    bool allowKept = false;
+    bool allowKeptImportedUnits = false;
+    bool allowDepRename = false;
+    bool allowAliasClash = false;
+    bool allowDepImport = false;
     int idSerial = 0;
 
     Splitter(Src &s, C06Forest &fo, const C06Options &o)
@@ -671,10 +676,28 @@ struct Splitter
         std::set<std::string> taken;
         ForestUnits fu(f.models);
         std::vector<std::string> toCreate;
+        // known findings excluded by construction (unless allowed): a units that other units refer to is given another name in
+        // the library while an equal definition keeps the old name upstream (the reference is left dangling); a units that has
+        // an alias among the needed ones is named like something else upstream (renaming in sequence conflates the two)
+        std::set<std::string> isDep;
+        for (const auto &u : need) {
+            int idx = findUnits(old, u);
+            if (idx >= 0 && old.units[static_cast<size_t>(idx)].import < 0) {
+                for (const auto &ch : old.units[static_cast<size_t>(idx)].units) {
+                    if (isUserUnits(ch.ref)) {
+                        isDep.insert(ch.ref);
+                    }
+                }
+            }
+        }
         for (const auto &u : need) {
             UnitsRed ru = fu.reduce(m, u);
             std::string n = u;
             unsigned k = static_cast<unsigned>(src.below(10));
+            if (k >= 5 && isDep.count(u) != 0 && !allowDepRename) {
+                k = 0;
+                ++f.counters["excluded:C06.valid|units-child-reference"];
+            }
             if (k >= 8) {
                 n = u + "_x";
                 f.classes.insert("plan:units-renamed-in-library");
@@ -684,6 +707,16 @@ struct Splitter
                 for (int mm : {m, 0}) {
                     for (const auto &x : f.models[static_cast<size_t>(mm)].spec.units) {
                         if (need.count(x.name) == 0 && redKey(fu.reduce(mm, x.name)) != redKey(ru) && std::find(cands.begin(), cands.end(), x.name) == cands.end()) {
+                            // known finding excluded by construction: the name must not belong to units that another needed
+                            // units is equal to (flattenModel renames in sequence: v -> x.name, then x.name -> something else)
+                            bool chain = false;
+                            for (const auto &v : need) {
+                                chain = chain || redKey(fu.reduce(m, v)) == redKey(fu.reduce(mm, x.name));
+                            }
+                            if (chain && !allowAliasClash) {
+                                ++f.counters["excluded:C06.units|*|units-renamed-in-sequence"];
+                                continue;
+                            }
                             cands.push_back(x.name);
                         }
                     }
@@ -691,6 +724,19 @@ struct Splitter
                 if (!cands.empty()) {
                     n = cands[src.below(cands.size())];
                     f.classes.insert("plan:units-name-clash");
+                }
+            }
+            {
+                // An imported units must not be named like a units of the model it comes from: flattenModel renames the
+                // imported definition inside a copy of that model and then finds the wrong units of that name (a units that
+                // refers to itself results; the validator, for its part, reports such an input as cyclic). Excluded.
+                int idx = findUnits(old, u);
+                if (idx >= 0 && old.units[static_cast<size_t>(idx)].import >= 0 && n != u) {
+                    int t = f.models[static_cast<size_t>(m)].importTarget[static_cast<size_t>(old.units[static_cast<size_t>(idx)].import)];
+                    if (findUnits(f.models[static_cast<size_t>(t)].spec, n) >= 0) {
+                        n = u;
+                        ++f.counters["excluded:imported-units-named-like-a-units-of-the-library"];
+                    }
                 }
             }
             bool reuse = false;
@@ -789,6 +835,28 @@ struct Splitter
         return true;
     }
 
+    // units names used (by variables or cn elements) by components that sit below an import element of the model
+    static std::set<std::string> unitsUsedBelowImports(const ModelSpec &s)
+    {
+        std::set<std::string> r;
+        for (size_t i = 0; i < s.comps.size(); ++i) {
+            bool below = false;
+            for (int p = s.comps[i].parent; p >= 0; p = s.comps[static_cast<size_t>(p)].parent) {
+                below = below || s.comps[static_cast<size_t>(p)].import >= 0;
+            }
+            if (!below) {
+                continue;
+            }
+            for (const auto &v : s.comps[i].vars) {
+                if (isUserUnits(v.units)) {
+                    r.insert(v.units);
+                }
+            }
+            collectCnUnits(s.comps[i], r);
+        }
+        return r;
+    }
+
     std::string uniqueCompName(const ModelSpec &lib, const std::set<std::string> &taken, std::string n) const
     {
         while (findComp(lib, n) >= 0 || taken.count(n) != 0) {
@@ -860,8 +928,36 @@ struct Splitter
         {
             size_t nk = old.childrenOf(c).size();
             for (size_t p = 0; p < nk; ++p) {
-                if (src.flip(25)) {
+                if (src.flip(40)) {
                     keptPos.insert(p);
+                }
+            }
+        }
+        // known findings (excluded by construction unless allowKept): flattenModel treats the importer-side components below an
+        // import element as if they came from the library: it renames them, rebinds the units of their variables and cn
+        // elements to empty units, skips every second one, and dereferences a null pointer when they use imported units
+        if (!allowKept && !keptPos.empty()) {
+            f.counters["excluded:C06.*|importer-children-below-import-element"] += static_cast<long>(keptPos.size());
+            keptPos.clear();
+        }
+        if (!allowKeptImportedUnits) {
+            auto kids = old.childrenOf(c);
+            for (size_t p : std::set<size_t>(keptPos)) {
+                bool usesImported = false;
+                for (int d : subtreeOf(old, kids[p])) {
+                    std::set<std::string> un;
+                    for (const auto &v : old.comps[static_cast<size_t>(d)].vars) {
+                        un.insert(v.units);
+                    }
+                    collectCnUnits(old.comps[static_cast<size_t>(d)], un);
+                    for (const auto &u : un) {
+                        int ui = findUnits(old, u);
+                        usesImported = usesImported || (ui >= 0 && old.units[static_cast<size_t>(ui)].import >= 0);
+                    }
+                }
+                if (usesImported) {
+                    keptPos.erase(p);
+                    ++f.counters["excluded:C06.crash|importer-children-use-imported-units"];
                 }
             }
         }
@@ -1172,6 +1268,37 @@ struct Splitter
                 elig.push_back(static_cast<int>(i));
             }
         }
+        if (!allowDepImport) {
+            // known finding excluded by construction: units that other units of the model refer to do not become imports (the
+            // flat model gets two units of that name when the referring units are imported elsewhere)
+            std::set<std::string> deps;
+            for (const auto &u : old.units) {
+                for (const auto &ch : u.units) {
+                    deps.insert(ch.ref);
+                }
+            }
+            std::vector<int> ok;
+            for (int e : elig) {
+                if (deps.count(old.units[static_cast<size_t>(e)].name) != 0) {
+                    ++f.counters["excluded:C06.valid|units-name-not-unique|library-units-dependency-is-an-import"];
+                } else {
+                    ok.push_back(e);
+                }
+            }
+            elig = ok;
+        }
+        if (!allowKeptImportedUnits) {
+            std::set<std::string> below = unitsUsedBelowImports(old);
+            std::vector<int> ok;
+            for (int e : elig) {
+                if (below.count(old.units[static_cast<size_t>(e)].name) != 0) {
+                    ++f.counters["excluded:C06.crash|importer-children-use-imported-units"];
+                } else {
+                    ok.push_back(e);
+                }
+            }
+            elig = ok;
+        }
         if (elig.empty()) {
             return false;
         }
@@ -1323,21 +1450,31 @@ struct Splitter
 
 bool nameCompat(const std::string &flat, const std::string &base, bool *suffixed)
 {
+    // base, optionally followed by de-clash suffixes: base(_<digits>)*
     if (flat == base) {
         return true;
     }
-    if (flat.size() > base.size() + 1 && flat.compare(0, base.size(), base) == 0 && flat[base.size()] == '_') {
-        for (size_t i = base.size() + 1; i < flat.size(); ++i) {
-            if (flat[i] < '0' || flat[i] > '9') {
-                return false;
-            }
-        }
-        if (suffixed != nullptr) {
-            *suffixed = true;
-        }
-        return true;
+    if (flat.size() <= base.size() + 1 || flat.compare(0, base.size(), base) != 0) {
+        return false;
     }
-    return false;
+    size_t i = base.size();
+    while (i < flat.size()) {
+        if (flat[i] != '_' || i + 1 >= flat.size()) {
+            return false;
+        }
+        size_t j = i + 1;
+        while (j < flat.size() && flat[j] >= '0' && flat[j] <= '9') {
+            ++j;
+        }
+        if (j == i + 1) {
+            return false;
+        }
+        i = j;
+    }
+    if (suffixed != nullptr) {
+        *suffixed = true;
+    }
+    return true;
 }
 
 } // namespace
@@ -1379,6 +1516,11 @@ C06Forest c06GenForest(Src &src, const C06Options &opt)
     const bool bare = src.flip(30);
     const bool ids = opt.allowIds && src.flip(10);
     const bool leaveGap = src.flip(opt.chainGapPct);
+    const bool allowKept = src.flip(opt.keptChildrenPct);
+    const bool allowKeptImportedUnits = allowKept && src.flip(30);
+    const bool allowDepRename = src.flip(opt.chainGapPct);
+    const bool allowAliasClash = src.flip(opt.chainGapPct);
+    const bool allowDepImport = src.flip(opt.chainGapPct);
     std::vector<unsigned> opKind(nOps), opModel(nOps);
     for (size_t i = 0; i < nOps; ++i) {
         opKind[i] = static_cast<unsigned>(src.below(10)); // < 7: components, else units
@@ -1423,6 +1565,11 @@ C06Forest c06GenForest(Src &src, const C06Options &opt)
     sp.barePlaceholders = bare;
     sp.useIds = ids;
     sp.leaveGap = leaveGap;
+    sp.allowKept = allowKept;
+    sp.allowKeptImportedUnits = allowKeptImportedUnits;
+    sp.allowDepRename = allowDepRename;
+    sp.allowAliasClash = allowAliasClash;
+    sp.allowDepImport = allowDepImport;
     if (ids) {
         f.classes.insert("library-components-with-ids");
     }
@@ -1557,6 +1704,99 @@ C06Forest c06GenForest(Src &src, const C06Options &opt)
     }
     if (f.chainGap) {
         f.classes.insert("chain-element-without-placeholder");
+    }
+    for (const auto &cm : f.models) {
+        for (const auto &u : Splitter::unitsUsedBelowImports(cm.spec)) {
+            int ui = findUnits(cm.spec, u);
+            if (ui >= 0 && cm.spec.units[static_cast<size_t>(ui)].import >= 0) {
+                f.importerChildrenUseImportedUnits = true;
+            }
+        }
+    }
+    for (const auto &cm : f.models) {
+        for (const auto &c : cm.spec.comps) {
+            if (c.parent >= 0 && cm.spec.comps[static_cast<size_t>(c.parent)].import >= 0) {
+                f.importerChildren = true;
+            }
+        }
+    }
+    if (f.importerChildrenUseImportedUnits) {
+        f.classes.insert("importer-children-below-import-use-imported-units");
+    }
+    {
+        // reductions of every units of the forest, by model
+        ForestUnits fu(f.models);
+        std::vector<std::map<std::string, std::string>> keys(f.models.size());
+        for (size_t a = 0; a < f.models.size(); ++a) {
+            for (const auto &u : f.models[a].spec.units) {
+                keys[a][u.name] = redKey(fu.reduce(static_cast<int>(a), u.name));
+            }
+        }
+        for (size_t b = 1; b < f.models.size(); ++b) {
+            for (const auto &u : f.models[b].spec.units) {
+                // a dependency whose definition exists elsewhere under another name
+                for (const auto &ch : u.units) {
+                    if (!isUserUnits(ch.ref) || keys[b].count(ch.ref) == 0) {
+                        continue;
+                    }
+                    for (size_t a = 0; a < f.models.size(); ++a) {
+                        for (const auto &o : keys[a]) {
+                            if (a != b && o.first != ch.ref && o.second == keys[b][ch.ref]) {
+                                f.unitsDependencyKnownElsewhere = true;
+                            }
+                        }
+                    }
+                }
+                // renaming in sequence: this units (X) equals another model's units named Y, and this library has its own,
+                // different Y
+                for (size_t a = 0; a < f.models.size(); ++a) {
+                    if (a == b) {
+                        continue;
+                    }
+                    for (const auto &o : keys[a]) {
+                        auto own = keys[b].find(o.first);
+                        if (o.first != u.name && o.second == keys[b][u.name] && own != keys[b].end() && own->second != o.second) {
+                            f.libraryAliasNamedLikeOtherUnits = true;
+                        }
+                    }
+                }
+                // a dependency that is itself an import
+                for (const auto &ch : u.units) {
+                    int di = findUnits(f.models[b].spec, ch.ref);
+                    if (di >= 0 && f.models[b].spec.units[static_cast<size_t>(di)].import >= 0) {
+                        f.unitsDependencyIsImport = true;
+                    }
+                }
+            }
+        }
+        // an import element of a library model with placeholder variables (parsed: the variables its connections mention)
+        for (size_t b = 1; b < f.models.size(); ++b) {
+            const ModelSpec &ls = f.models[b].spec;
+            for (size_t ci = 0; ci < ls.comps.size(); ++ci) {
+                if (ls.comps[ci].import < 0) {
+                    continue;
+                }
+                bool visible = !opt.libsParsed && !ls.comps[ci].vars.empty();
+                for (const auto &cn : ls.conns) {
+                    visible = visible || ((cn.c1 == static_cast<int>(ci) || cn.c2 == static_cast<int>(ci)) && !cn.maps.empty());
+                }
+                if (visible) {
+                    f.libraryImportElementWithPlaceholders = true;
+                }
+            }
+        }
+    }
+    if (f.unitsDependencyKnownElsewhere) {
+        f.classes.insert("units-dependency-defined-elsewhere-under-another-name");
+    }
+    if (f.libraryAliasNamedLikeOtherUnits) {
+        f.classes.insert("units-renamed-in-sequence");
+    }
+    if (f.unitsDependencyIsImport) {
+        f.classes.insert("library-units-dependency-is-an-import");
+    }
+    if (f.libraryImportElementWithPlaceholders) {
+        f.classes.insert("library-import-element-with-placeholder-variables");
     }
     bool dupImport = false, diamond = false;
     for (const auto &e : entityUse) {
@@ -1860,22 +2100,29 @@ std::string c06CrashToken(const std::string &diag)
         size_t e = diag.find_first_of(" \n", p + 25);
         kind = "asan:" + diag.substr(p + 25, e - (p + 25));
     } else if ((p = diag.find("runtime error: ")) != std::string::npos) {
-        size_t e = diag.find('\n', p);
-        std::string what = diag.substr(p + 15, std::min<size_t>(40, e - (p + 15)));
-        for (auto &ch : what) {
-            if (ch == ' ') {
-                ch = '-';
-            }
+        // the first words of the message, without the operands
+        std::istringstream is(diag.substr(p + 15, diag.find('\n', p) - (p + 15)));
+        std::string w, what;
+        int n = 0;
+        while (is >> w && n < 5 && w != "of" && w != "for" && w[0] != '\'' && (w[0] < '0' || w[0] > '9')) {
+            what += (what.empty() ? "" : "-") + w;
+            ++n;
         }
         kind = "ubsan:" + what;
-    } else if (diag.find("VP-CASE-TIMEOUT") != std::string::npos || diag.find("timeout") != std::string::npos) {
-        kind = "hang";
     } else if (diag.find("terminate called") != std::string::npos) {
         kind = "uncaught";
     }
+    // UBSan names the source file on the error line whatever the options are (a stack trace is printed only on request), so
+    // that is the localisation for UBSan reports; ASan reports always carry a stack: innermost libcellml frame.
     std::string frame = "?";
-    p = diag.find(" in libcellml::");
-    if (p != std::string::npos) {
+    size_t re = diag.find("runtime error: ");
+    if (kind.compare(0, 6, "ubsan:") == 0 && re != std::string::npos) {
+        size_t ls = diag.rfind('\n', re);
+        ls = ls == std::string::npos ? 0 : ls + 1;
+        std::string path = diag.substr(ls, diag.find(':', ls) - ls);
+        size_t sl = path.find_last_of('/');
+        frame = sl == std::string::npos ? path : path.substr(sl + 1);
+    } else if ((p = diag.find(" in libcellml::")) != std::string::npos) {
         size_t e = diag.find_first_of("( \n", p + 4);
         frame = diag.substr(p + 4, e - (p + 4));
     }
